@@ -228,6 +228,9 @@ func c02GraphOpt(r *rand.Rand, blank bool) *lib.Graph {
 					v = lib.RefV(ids[r.Intn(n)]) // includes self-loops, cycles, shared children, diamonds
 				case x < 8:
 					v = lib.StrV(c02Lits[r.Intn(len(c02Lits))]) // literal, possibly in mid-path
+					if r.Intn(5) == 0 && !strings.HasPrefix(ids[0], "_:") {
+						v = lib.StrV(ids[r.Intn(nT)]) // a literal that spells the IRI of a node: a string, not a link
+					}
 				case x < 9:
 					v = lib.IntV(int64(40 + r.Intn(3)))
 				default:
